@@ -259,7 +259,9 @@ ADDED = {
            "of str/int and mixed-type set_many batches.",
     "C05": " Histories are replayed on Client, PooledClient and a one-server HashClient; multi-key fetches may name a key twice; "
            "spec/ClientOps.tla models every method at wire level (commands, a faithful server, reply interpretation) and Cache.tla checks in "
-           "every reachable state that client + server refine the abstract cache (WireRefinesAbstract).",
+           "every reachable state that client + server refine the abstract cache (WireRefinesAbstract) -- and, started in each of the 7.5k "
+           "well-formed states of a bounded shape (SpecAll), in every state whether reachable within the depth or not: agreement on all "
+           "(state, operation) pairs is agreement on histories of any length.",
     "C06": " Also: HashClient stacks that give up on their server while it comes back (socket bookkeeping clauses only); the repository's "
            "integration tests as a trace source (see C01).",
     "C08": " What escapes a pooled call (capacity error or the call's own error, never an error raised inside pool.py), calls rejected "
